@@ -1,4 +1,4 @@
-(* C01 oracle and non-triviality on wiring cases. Correspondence: Corr/Wiring.v [wcheck];
+(* C05 oracle and non-triviality on wiring cases. Correspondence: Corr/Wiring.v [wcheck];
    oracles: Corr/WiringOracles.v (static scenario data + the implementation's observation only). *)
 From Coq Require Import List Arith Bool.
 From IocVerif Require Import Model.App Corr.Wiring Corr.WiringOracles.
@@ -6,10 +6,10 @@ Import ListNotations.
 
 Definition check_case : wcase -> bool := wcheck.
 
-(* after a successful start every version held anywhere equals the by-name lookup of its component *)
-Definition oracle_case (c : wcase) : bool := oracle_one_version c.
+(* populate, then before / AfterPropertiesSet / Init / after exactly once; dependencies first; lazy only if needed *)
+Definition oracle_case (c : wcase) : bool := oracle_lifecycle c.
 
-Definition nontrivial (c : wcase) : bool := ok_start c && shared c 2.
+Definition nontrivial (c : wcase) : bool := ok_start c && (1 <=? count_points c (fun h kp => negb (Nat.eqb (length (obs_field (w_obs c) h (fst kp))) 0))) && existsb (fun e => match e with EvInit _ => true | _ => false end) (ob_log (w_obs c)).
 
 Definition mismatches (cs : list wcase) : list nat := wmismatches cs.
 Definition violations (cs : list wcase) : list nat :=
